@@ -1,6 +1,8 @@
 package main
 
 import (
+	"math/rand"
+	"strings"
 	"sync"
 	"time"
 
@@ -299,6 +301,36 @@ var stackTable = []stackRow{
 		r.Add(devName, hailpb.WrapApi(hailpb.NewModelServer(m)))
 		return hailpb.WrapApi(r), m
 	}, "collector"},
+	// ---- keyed models whose collections have an id interceptor (resource.WithIDInterceptor): one item, many spellings
+	// of its id; every request of a keyed session on these rows spells the id its own way (see rowExtras.Spell) ----------
+	{"vendingpb", "NewModelServer", func() (any, any) {
+		opts := []resource.Option{resource.WithIDInterceptor(strings.ToLower)}
+		for _, m := range stockInitial() {
+			opts = append(opts, vendingpb.WithInitialStock(m.(*traits.Consumable_Stock)))
+		}
+		m := vendingpb.NewModel(opts...)
+		r := vendingpb.NewApiRouter()
+		r.Add(devName, vendingpb.WrapApi(vendingpb.NewModelServer(m)))
+		return vendingpb.WrapApi(r), m
+	}, "icpt"},
+	{"hailpb", "NewModelServer", func() (any, any) {
+		opts := []resource.Option{hailpb.WithKeepAlive(-1), resource.WithIDInterceptor(strings.ToLower)}
+		for _, h := range hailInitialMixed() {
+			opts = append(opts, resource.WithInitialRecord(h.(*traits.Hail).Id, h))
+		}
+		m := hailpb.NewModel(opts...)
+		r := hailpb.NewApiRouter()
+		r.Add(devName, hailpb.WrapApi(hailpb.NewModelServer(m)))
+		return hailpb.WrapApi(r), m
+	}, "icpt"},
+	{"publicationpb", "NewModelServer", func() (any, any) {
+		// ids are compared without surrounding blanks
+		m := publicationpb.NewModel(resource.WithIDInterceptor(strings.TrimSpace),
+			publicationpb.WithInitialPublication(pubInitial()[0].(*traits.Publication)))
+		r := publicationpb.NewApiRouter()
+		r.Add(devName, publicationpb.WrapApi(publicationpb.NewModelServer(m)))
+		return publicationpb.WrapApi(r), m
+	}, "icpt"},
 	// ---- routers that create their clients on first use (generated WithXxxApiClientFactory): see gatedRows --------
 	{"onoffpb", "NewModelServer", func() (any, any) { return gatedRows["onoffpb.NewModelServer+factory"](&gate{}), nil }, "factory"},
 	{"airtemperaturepb", "NewModelServer", func() (any, any) { return gatedRows["airtemperaturepb.NewModelServer+factory"](&gate{}), nil }, "factory"},
@@ -316,10 +348,63 @@ type rowExtra struct {
 	// that runs at the end of CreateHail (at most once per keep-alive): with the collector armed a Create may
 	// legitimately delete every hail whose arrive_time is old; a history of Get/Update/Pull never deletes anything
 	NoCreate bool
+	// Spell: the model's collections have an id interceptor; Spell gives a random spelling of an item's id that the
+	// interceptor maps to the same stored id (sometimes the id as it is). Every Get / Update / Pull / Delete request of
+	// a keyed session spells the id of its item afresh: the item is one register under every spelling
+	Spell func(r *rand.Rand, key string) string
 }
 
 var rowExtras = map[string]rowExtra{
-	"hailpb.NewModelServer+collector": {Initial: hailInitial, NoCreate: true},
+	"hailpb.NewModelServer+collector":   {Initial: hailInitial, NoCreate: true},
+	"vendingpb.NewModelServer+icpt":     {Initial: stockInitial, Spell: spellCase},
+	"hailpb.NewModelServer+icpt":        {Initial: hailInitialMixed, Spell: spellCase},
+	"publicationpb.NewModelServer+icpt": {Initial: pubInitial, Spell: spellBlanks},
+}
+
+// spellCase: spellings under a lower-casing interceptor - the id as it is, lower case, upper case, or letter by letter.
+func spellCase(r *rand.Rand, key string) string {
+	switch r.Intn(4) {
+	case 0:
+		return key
+	case 1:
+		return strings.ToLower(key)
+	case 2:
+		return strings.ToUpper(key)
+	}
+	b := []byte(key)
+	for i, c := range b {
+		if r.Intn(2) == 0 {
+			b[i] = []byte(strings.ToUpper(string(c)))[0]
+		} else {
+			b[i] = []byte(strings.ToLower(string(c)))[0]
+		}
+	}
+	return string(b)
+}
+
+// spellBlanks: spellings under a blank-trimming interceptor.
+func spellBlanks(r *rand.Rand, key string) string {
+	return []string{"", "", " ", "  "}[r.Intn(4)] + strings.TrimSpace(key) + []string{"", "", " ", "\t"}[r.Intn(4)]
+}
+
+// stockInitial: stock the icpt vending model starts with (ids in lower and in mixed case).
+func stockInitial() []proto.Message {
+	return []proto.Message{
+		&traits.Consumable_Stock{Consumable: "cola", Remaining: &traits.Consumable_Quantity{Amount: 10}},
+		&traits.Consumable_Stock{Consumable: "Tea", Used: &traits.Consumable_Quantity{Amount: 3}},
+	}
+}
+
+// hailInitialMixed: hails the icpt hail model starts with; the second id is not in the interceptor's image.
+func hailInitialMixed() []proto.Message {
+	return []proto.Message{
+		&traits.Hail{Id: "ha", State: traits.Hail_CALLED, Origin: &traits.Hail_Location{Name: "a"}},
+		&traits.Hail{Id: "Hb", State: traits.Hail_ARRIVED, Origin: &traits.Hail_Location{Name: "b"}},
+	}
+}
+
+func pubInitial() []proto.Message {
+	return []proto.Message{&traits.Publication{Id: "pub", Version: "v1", Body: []byte("x")}}
 }
 
 // hailInitial: one hail that is still on its way and one that arrived long ago (and is collectable from the start).
